@@ -51,7 +51,27 @@ class StmtMixin:
             a = None
         if not feasible(b.pc):
             b = None
+        for br in (a, b):
+            if br is not None:
+                self.refine_optionals(br)
         return a, b
+
+    def refine_optionals(self, st):
+        """after a branch: optional variables whose None-ness is now decided become plain values / None"""
+        for n, v in list(st.vars.items()):
+            if isinstance(v, VOpt) and not z3.is_true(v.isnone) and not z3.is_false(v.isnone):
+                s1 = z3.Solver()
+                s1.set("timeout", 150)
+                s1.add(*st.pc[-8:])
+                s1.push()
+                s1.add(v.isnone)
+                if s1.check() == z3.unsat:
+                    st.vars[n] = v.v
+                    continue
+                s1.pop()
+                s1.add(z3.Not(v.isnone))
+                if s1.check() == z3.unsat:
+                    st.vars[n] = VNone()
 
     # ---- simple statements -------------------------------------------------------------------------------
     def st_Expr(self, s, st):
@@ -594,6 +614,8 @@ class StmtMixin:
                     return self.exec_block(s.orelse, st) if s.orelse else [(st, None)]
                 count = seq.n
                 elem_fn = lambda kk: seq.get(kk)
+                if not self.inline_prefix:
+                    st.vars["_seq%s" % k] = seq  # ghost: the sequence being iterated (for a set: its arbitrary enumeration)
             else:
                 self.unsupported(s, "for over %s" % seq.ty)
         count = z3.simplify(count)
